@@ -3,6 +3,7 @@
 package main
 
 import (
+	"encoding/json"
 	"fmt"
 	"os"
 
@@ -159,4 +160,70 @@ func (w *world) traceSlot(op int) {
 		line += fmt.Sprintf(" | %s: code=%d %s", backendName[ni], r.Code, r.Result)
 	}
 	fmt.Fprintln(os.Stderr, line)
+}
+
+// probeNull (C08_PROBE=null): what the real servers answer to null / ill-typed arguments.
+func probeNull() {
+	r := lib.NewRNG(1)
+	w, err := newWorld(r, false, lib.DefaultGenOptions())
+	if err != nil {
+		panic(err)
+	}
+	for i := 0; i < 3; i++ {
+		if err := w.next(); err != nil {
+			panic(err)
+		}
+	}
+	var txh string
+	for _, b := range w.g.Bundles {
+		for _, tx := range b.Block.Transactions {
+			txh = tx.Hash().String()
+		}
+	}
+	av := w.g.Addr(4)
+	a := av.String()
+	type rq struct {
+		m string
+		p any
+	}
+	var null any
+	reqs := []rq{
+		{"starknet_getNonce", []any{null, a}}, {"starknet_getNonce", []any{"latest", null}}, {"starknet_getNonce", []any{map[string]any{"block_number": 99}, null}},
+		{"starknet_getNonce", map[string]any{"block_id": null, "contract_address": a}},
+		{"starknet_getBlockWithTxHashes", []any{null}}, {"starknet_getBlockTransactionCount", []any{null}}, {"starknet_getStateUpdate", []any{null}},
+		{"starknet_getBlockWithTxHashes", []any{map[string]any{"block_number": null}}}, {"starknet_getBlockWithTxHashes", []any{map[string]any{"block_hash": null}}},
+		{"starknet_getBlockTransactionCount", []any{map[string]any{"block_number": 1.0}}}, {"starknet_getBlockTransactionCount", []any{map[string]any{"block_number": json.Number("1.0")}}},
+		{"starknet_getBlockTransactionCount", []any{map[string]any{"block_number": json.Number("1.5")}}}, {"starknet_getBlockTransactionCount", []any{map[string]any{"block_number": -1}}},
+		{"starknet_getBlockTransactionCount", []any{map[string]any{"block_number": json.Number("18446744073709551616")}}},
+		{"starknet_getBlockTransactionCount", []any{map[string]any{"block_number": json.Number("1e0")}}},
+		{"starknet_getBlockTransactionCount", []any{map[string]any{"block_hash": null, "block_number": 1}}},
+		{"starknet_getTransactionByBlockIdAndIndex", []any{"latest", null}}, {"starknet_getTransactionByBlockIdAndIndex", []any{null, 0}}, {"starknet_getTransactionByBlockIdAndIndex", []any{null, -1}},
+		{"starknet_getTransactionByBlockIdAndIndex", []any{"latest", json.Number("0.0")}}, {"starknet_getTransactionByBlockIdAndIndex", []any{"latest", "0"}},
+		{"starknet_getTransactionByHash", []any{null}}, {"starknet_getTransactionReceipt", []any{null}}, {"starknet_getTransactionStatus", []any{null}},
+		{"starknet_getTransactionByHash", []any{txh, null}},
+		{"starknet_getStorageAt", []any{null, "0x1", "latest"}}, {"starknet_getStorageAt", []any{a, null, "latest"}}, {"starknet_getStorageAt", []any{a, "0x1", null}},
+		{"starknet_getStorageAt", []any{null, "0x1", map[string]any{"block_number": 99}}},
+		{"starknet_getClass", []any{"latest", null}}, {"starknet_getClassAt", []any{"latest", null}}, {"starknet_getClassHashAt", []any{"latest", null}},
+		{"starknet_getClassHashAt", []any{null, a}}, {"starknet_getStateUpdate", []any{"latest", null}},
+	}
+	for _, q := range reqs {
+		line := fmt.Sprintf("%-42s %-60s", q.m, fmt.Sprint(q.p))
+		for _, v := range versions {
+			resp := w.nodes[0].call(v, q.m, q.p)
+			s := fmt.Sprintf("code=%d", resp.Code)
+			if resp.Broken != "" {
+				s = "BROKEN " + resp.Broken
+				if len(s) > 40 {
+					s = s[:40]
+				}
+			} else if resp.Code == 0 {
+				s = "ok " + string(resp.Result)
+				if len(s) > 40 {
+					s = s[:40]
+				}
+			}
+			line += " | " + v + ": " + s
+		}
+		fmt.Println(line)
+	}
 }
